@@ -23,7 +23,10 @@ recognises), that is a broken tie, not a harness failure: the cases are still ru
 oracle, the search runs, and the report is `no-failing-input-found` with the missing accesses named.
 
 The oracle (harness/ref/race.py) never looks at the model: every GET /accessories, also one in
-progress while an update lands, must carry a representation of the characteristic; after everything completed (hand-offs
+progress while an update lands, must carry a representation of the characteristic; in runs whose updates
+each landed as a whole at one point of the loop's program (the property's quantifier) the values shown by
+ALL reads, also those in progress, must be the outcome of one serial order of reads, controller writes and
+updates that respects both program orders and real time (judge_serial_order); after everything completed (hand-offs
 drained, every armed coalescing timer expired — fired the way the loop fires a due TimerHandle,
 never by calling the flush routine directly), GET /accessories (twice) and GET /characteristics
 must show the last accepted write, and every connection that was subscribed before the worker's
@@ -87,7 +90,15 @@ TRUSTED = [
     "at the loop boundary (handles returned by call_later / call_at, attributed to the connection found in the "
     "scheduling frames) and expire by running the still-scheduled, uncancelled handles as _run_once does",
     "the deterministic scheduler/tracer of this harness (sys.settrace line/opcode events, token passing), the "
-    "generators, harness/ref/race.py (oracle and EVENT parser)",
+    "generators, harness/ref/race.py (oracle, serial-order search and EVENT parser)",
+    "completeness of the access log: besides the per-case comparison with the model's accesses, once per process "
+    "the value / cache slots are wrapped in a data descriptor that sees every get / set on the characteristic under "
+    "test however it is spelled; over the warm-up programs (every operation of the alphabet) the logged accesses "
+    "must be exactly those that happened, else the tie counts as not established",
+    "Characteristic.override_properties called from the worker thread is exercised and judged by the oracle (value "
+    "sentence, serial order of the value reads) but is not in the Lean model; that the representation served "
+    "afterwards may keep superseded minValue/maxValue/minStep is counted as an observation, not judged (C20 speaks "
+    "of the value; design/audit/race.md §3)",
 ]
 
 # ------------------------------------------------------------------------------------------------
@@ -106,9 +117,34 @@ KINDS: Dict[str, Dict[str, Any]] = {
 }
 
 
+def is_override(u: Any) -> bool:
+    """A worker item {"override": {...}}: Characteristic.override_properties(properties=...) instead of set_value."""
+    return isinstance(u, dict) and "override" in u
+
+
 def is_valid(kind: str, v: Any) -> bool:
     """Predicted by construction (not by calling pyhap): is `v` accepted by set_value?"""
+    if is_override(v):
+        return True
     return v in KINDS[kind]["good"] and not isinstance(v, str)
+
+
+def worker_values(kind: str, init: Any, worker: List[Any]) -> List[Any]:
+    """The value each worker item leaves behind when the items run one after the other (by construction: a
+    set_value of a good value stores it, a rejected one stores nothing, an override of minValue / maxValue
+    clamps the current value into the new range)."""
+    out, cur = [], init
+    for u in worker:
+        if is_override(u):
+            pr = u["override"]
+            if "maxValue" in pr:
+                cur = min(cur, pr["maxValue"])
+            if "minValue" in pr:
+                cur = max(cur, pr["minValue"])
+        elif is_valid(kind, u):
+            cur = u
+        out.append(cur)
+    return out
 
 
 def payload(kind: str, v: Any) -> Optional[int]:
@@ -372,6 +408,84 @@ def value_attr() -> Optional[str]:
     return None
 
 
+_SPY_MUTE = False
+
+
+class _SlotSpy:
+    """Completeness audit of the access log.  The log is built from bytecode (`self.<slot>` loads / stores in
+    methods whose `self` is the characteristic under test); an access written any other way — another
+    receiver expression, getattr / setattr, a helper outside the class — would be invisible to it and hence
+    missing from the model's alphabet without anybody noticing.  During the audit the three slots of the
+    class are wrapped in this data descriptor, which sees EVERY get / set of them on the object under test,
+    however it is spelled; the two views must coincide (see completeness_audit)."""
+
+    def __init__(self, orig, var: str):
+        self.orig = orig
+        self.var = var
+
+    def _note(self, obj, kind: str):
+        ex = _CUR
+        if ex is not None and not _SPY_MUTE and obj is ex.env.char:
+            tid = "L" if threading.current_thread() is ex.env.loop_thread else "W"
+            # the same two exemptions as Exec.access: the worker reading what only it writes; the inside of a
+            # controller write (one atomic model step, labelled by its assignment)
+            if tid == "W" and kind == "R":
+                return
+            if tid == "L" and ex.in_write and not (kind == "W" and self.var == "value"):
+                return
+            ex.spy.append(f"{tid}:{kind}:{self.var}")
+
+    def __get__(self, obj, typ=None):
+        if obj is None:
+            return self
+        self._note(obj, "R")
+        return self.orig.__get__(obj, typ)
+
+    def __set__(self, obj, value):
+        self._note(obj, "W")
+        self.orig.__set__(obj, value)
+
+    def __delete__(self, obj):
+        self._note(obj, "W")
+        self.orig.__delete__(obj)
+
+
+def completeness_audit() -> Optional[str]:
+    """Run the warm-up programs (every operation of the alphabet, both granularities, both worker kinds)
+    with the slots spied upon; None if the logged accesses (bytecode view) are exactly the accesses that
+    happened (worker-side reads and the inside of a controller write are exempt in both views)."""
+    from pyhap.characteristic import Characteristic
+
+    if len(SHARED_ATTRS) != 3:
+        return None
+    saved = {}
+    try:
+        for name, var in SHARED_ATTRS.items():
+            for k in Characteristic.__mro__:
+                if name in k.__dict__:
+                    saved[name] = (k, k.__dict__[name])
+                    setattr(k, name, _SlotSpy(k.__dict__[name], var))
+                    break
+        if len(saved) != 3:
+            return None  # not class-level slots / attributes: nothing to wrap (instrumentation unchanged)
+        for c in _WARM_CASES:
+            r = _run_case_once(c)
+            spy = r["spy"]
+            raw = [a for a in r["impl"]["trace"] if a.split(":")[2] in ("value", "cacheV", "cache")]
+            if raw != spy:
+                k = next((i for i, (a, b) in enumerate(zip(raw, spy)) if a != b), min(len(raw), len(spy)))
+                return (
+                    "the access log is incomplete: accesses to the value / cache slots of the characteristic that "
+                    "really happen differ from those the bytecode instrumentation recognises (first difference at "
+                    f"position {k}: happened {spy[k:k + 3]}, recognised {raw[k:k + 3]}; {len(spy)} vs {len(raw)} accesses "
+                    f"in program {c['loop']})"
+                )
+    finally:
+        for name, (k, orig) in saved.items():
+            setattr(k, name, orig)
+    return None
+
+
 class SchedulerStuck(Exception):
     pass
 
@@ -474,6 +588,8 @@ class Exec:
         self.deferred_switch = False
         self.w_in_update = False
         self.overlap = False           # a controller write overlapped a worker update / undrained hand-off
+        self.update_preempted = False  # the worker handed the token over in the middle of an update
+        self.spy: List[str] = []       # every value / cache access that really happened (completeness audit)
         self.anomalies: List[str] = []
         self.timer_problem: Optional[str] = None
         self.op_errors: List[str] = []
@@ -548,7 +664,12 @@ class Exec:
         if self.capture:
             self.capture = False
             # diagnostic read of the object just stored (identity class)
-            v = getattr(self.env.char, value_attr() or "_value", None)
+            global _SPY_MUTE
+            _SPY_MUTE = True
+            try:
+                v = getattr(self.env.char, value_attr() or "_value", None)
+            finally:
+                _SPY_MUTE = False
             ids = self.write_ids if self.capture_tid == "W" else self.l_write_ids
             for i, o in enumerate(self.objects):
                 if o is v:
@@ -602,6 +723,8 @@ class Exec:
         other = "W" if tid == "L" else "L"
         with self.cv:
             if self.runnable[other]:
+                if tid == "W" and self.w_in_update:
+                    self.update_preempted = True
                 self.turn = other
                 self.cv.notify_all()
                 self.wait_turn_locked(tid)
@@ -636,7 +759,10 @@ class Exec:
                 self.timeline.append({"t": "update", "j": j, "phase": "start"})
                 self.w_in_update = True
                 try:
-                    self.env.char.set_value(u)
+                    if is_override(u):
+                        self.env.char.override_properties(properties=dict(u["override"]))
+                    else:
+                        self.env.char.set_value(u)
                     self.worker_outcomes.append("ok")
                 except ValueError:
                     self.worker_outcomes.append("ValueError")
@@ -755,6 +881,7 @@ class Exec:
         if op[0] == "write":
             ev["value"] = op[2]
         self.timeline.append(dict(ev, phase="start"))
+        n_res = len(self.results)
         try:
             self.do_op(op)
         except (SchedulerStuck, TracingIncomplete):
@@ -762,6 +889,9 @@ class Exec:
         except Exception as ex:  # noqa: BLE001  (the loop would log it and go on)
             self.in_write = False
             self.op_errors.append(f"{op}: {type(ex).__name__}: {ex}")
+        if len(self.results) == n_res + 1 and isinstance(self.results[-1], dict):
+            # what this read showed for the characteristic (payload); value-free / empty answers show nothing
+            ev = dict(ev, shown=next(iter(self.results[-1].values())))
         self.timeline.append(dict(ev, phase="end"))
         if self.deferred_switch and not self.in_write:
             self.deferred_switch = False
@@ -881,6 +1011,8 @@ def warm_up():
     probes = [_run_case_once(c) for c in (_WARM_CASES[0], _WARM_CASES[0], _WARM_CASES[1])]
     if probes[0]["missing"] and probes[0]["impl"]["trace"] == probes[1]["impl"]["trace"] and probes[2]["missing"]:
         _TIE_PROBLEM = "; ".join(probes[0]["missing"])
+    if _TIE_PROBLEM is None:
+        _TIE_PROBLEM = completeness_audit()
 
 
 def run_case(case: Dict[str, Any]) -> Dict[str, Any]:
@@ -914,11 +1046,20 @@ def _run_case_once(case: Dict[str, Any]) -> Dict[str, Any]:
     try:
         ex = Exec(env, case.get("switchL", []), case.get("switchW", []), case.get("start", "L"),
                   case.get("gran", "line"), case.get("wkind", "plain"))
-        updates = [fresh_object(kind, u) for u in case["worker"]]
+        updates = [u if is_override(u) else fresh_object(kind, u) for u in case["worker"]]
         epi = epilogue_for(conns)
         ex.run(case["prologue"], case["loop"], updates, epi)
         valid = [is_valid(kind, u) for u in case["worker"]]
         events = {c: ref.parse_events(tr.writes, env.aid, env.iid) for c, (_, tr) in env.conns.items()}
+        has_override = any(is_override(u) for u in case["worker"])
+        stale_meta: Dict[str, Any] = {}
+        if has_override and not ex.op_errors:
+            # OBSERVATION, not judged (C20 speaks of the value): does the representation served after completion
+            # carry the properties the characteristic has now?
+            ent = env.driver.get_accessories()["accessories"][0]["services"][env.pos[0]]["characteristics"][env.pos[1]]
+            now = env.char.properties
+            stale_meta = {k: {"served": (ent or {}).get(k), "properties": now[k]}
+                          for k in ("minValue", "maxValue", "minStep") if k in now and (ent or {}).get(k) != now[k]}
     finally:
         env.close()
     missing: List[str] = []
@@ -936,6 +1077,7 @@ def _run_case_once(case: Dict[str, Any]) -> Dict[str, Any]:
             "line": None, "impl": {"trace": ex.log, "results": ex.results, "delivered": []}, "verdicts": verdicts,
             "interleaved": True, "yields": dict(ex.yields), "yield_info": ex.yield_info, "sched_part": ex.log,
             "scale": KINDS[kind]["scale"], "n_ep": len(epi), "overlap": True, "missing": [], "timer_problem": None,
+            "spy": ex.spy,
         }
 
     # ---- oracle (property on the real behaviour) -------------------------------------------------
@@ -946,11 +1088,12 @@ def _run_case_once(case: Dict[str, Any]) -> Dict[str, Any]:
     direct_reads = [ep_results[2]["value"]]
     ev_payload = {c: [payload(kind, v) for v in evs] for c, evs in events.items()}
     timeline = []
+    wvals = worker_values(kind, case["init"], case["worker"])
     for ev in ex.timeline:
         ev = dict(ev)
         if ev["t"] == "update":
             ev["valid"] = valid[ev["j"]]
-            ev["value"] = payload(kind, case["worker"][ev["j"]]) if ev["valid"] else None
+            ev["value"] = payload(kind, wvals[ev["j"]]) if ev["valid"] else None
         elif ev["t"] == "write":
             ev["value"] = payload(kind, ev["value"])
         timeline.append(ev)
@@ -968,6 +1111,9 @@ def _run_case_once(case: Dict[str, Any]) -> Dict[str, Any]:
         verdicts = ref.judge_timeline(
             payload(kind, case["init"]), timeline, database_reads, direct_reads, ev_payload, inflight
         )
+        if not ex.update_preempted and not verdicts and ex.worker_outcomes == outcome_ok:
+            # the property's quantifier: every update ran as a whole at one point of the loop's program
+            verdicts = list(verdicts) + ref.judge_serial_order(payload(kind, case["init"]), timeline)
         if ex.worker_outcomes != outcome_ok:
             verdicts.append(
                 (
@@ -995,7 +1141,9 @@ def _run_case_once(case: Dict[str, Any]) -> Dict[str, Any]:
     wid = iter(ex.write_ids)
     wups = []
     for u, ok in zip(case["worker"], valid):
-        if ok:
+        if is_override(u):
+            wups.append([0, 0, False])  # (cases with an override are not sent to the model: oracle only)
+        elif ok:
             wups.append([next(wid, 0), payload(kind, u), True])
         else:
             wups.append([0, 0, False])
@@ -1028,6 +1176,7 @@ def _run_case_once(case: Dict[str, Any]) -> Dict[str, Any]:
         "line": line, "impl": impl_obs, "verdicts": verdicts, "interleaved": interleaved,
         "yields": dict(ex.yields), "yield_info": ex.yield_info, "sched_part": sched_part, "scale": scale,
         "n_ep": n_ep, "overlap": ex.overlap, "missing": missing, "timer_problem": timer_problem,
+        "atomic": not ex.update_preempted, "spy": ex.spy, "oracle_only": has_override, "stale_meta": stale_meta,
     }
 
 
@@ -1142,6 +1291,18 @@ def gen_cases(ctx: Ctx) -> List[Tuple[str, Dict[str, Any]]]:
                 cases.append((f"phased/{name}", dict(sc2, switchL=[k])))
             # ... and with the first update only
             cases.append((f"phased1/{name}", dict(sc, worker=sc["worker"][:1])))
+    # (V) the worker calls override_properties (a narrower range: value kept / value clamped) instead of
+    #     set_value, at every point of a read — oracle only (value sentence + serial order of the reads)
+    for init in (20, 80):
+        for name, prol, prog in (("toHAP-cold", [], [["toHAP"]]), ("toHAP-warm", [["toHAP"]], [["toHAP"]]),
+                                 ("toHAPnv-cold", [], [["toHAPnv"], ["toHAP"]]), ("getValue", [], [["getValue"]])):
+            sc = base_case("int", init, [], prol, prog, [{"override": {"maxValue": 50}}])
+            nl, nw, solo = solo_counts(sc)
+            for k in sweep_points(solo["yield_info"]["L"]):
+                cases.append((f"override/{name}", dict(sc, switchL=[k])))
+            sc2 = dict(sc, worker=[{"override": {"maxValue": 50}}, 21])
+            for k in sweep_points(solo["yield_info"]["L"])[::3]:
+                cases.append((f"override-then-set/{name}", dict(sc2, switchL=[k])))
     # (O) the worker thread runs an asyncio loop of its own while it updates (asyncio.run inside a sync run())
     for kind in (["int"] if ctx.quick else kinds_sweep):
         for name, sc in scenarios(kind):
@@ -1307,7 +1468,8 @@ def _minimise(case: Dict[str, Any], sig: str) -> Dict[str, Any]:
 def _run_slim(case: Dict[str, Any]) -> Dict[str, Any]:
     tracing_on()  # stays on for the whole batch in this process
     r = run_case(case)
-    r.pop("yield_info", None)
+    for k in ("yield_info", "spy"):
+        r.pop(k, None)
     return r
 
 
@@ -1356,6 +1518,8 @@ def _evaluate(ctx: Ctx, cases: List[Tuple[str, Dict[str, Any]]], correspond: boo
         for op in case["loop"]:
             st.hit("op", "loop:" + op[0])
         st.hit("outcome", "interleaved" if r["interleaved"] else "serial")
+        if r.get("atomic") and not r.get("overlap"):
+            st.hit("outcome", "updates-landed-whole: reads in progress judged against all serial orders")
         if "none" in r["impl"]["results"][: len(r["impl"]["results"]) - 3]:
             st.hit("outcome", "read-in-progress-returned-None")
         if "L:W:cacheV" in sp and sp.count("L:R:value") >= 2 and sp[-1:] != ["L:R:value"]:
@@ -1370,6 +1534,12 @@ def _evaluate(ctx: Ctx, cases: List[Tuple[str, Dict[str, Any]]], correspond: boo
                     "access-level tie could not be established: " + r["tie_problem"],
                     {"accesses_logged": r["impl"]["trace"]},
                 )
+            continue
+        if r.get("oracle_only"):
+            st.hit("outcome", "override_properties from the worker thread (value sentence judged by the oracle; not in the model)")
+            if r.get("stale_meta"):
+                st.hit("outcome", "observation (not judged): representation served after completion keeps superseded "
+                                  "minValue/maxValue/minStep")
             continue
         if r.get("overlap"):
             # outside the model's Serial assumption and outside C20's oracle (C12's known finding)
@@ -1413,7 +1583,8 @@ def run(ctx: Ctx):
         "connection's queue with its timer armed, then controller write by the subscriber / by another connection, "
         "unsubscribe+resubscribe, repeated subscribe, timer expiry on a full or emptied queue, direct flush; a "
         "second update lands at every point of that program; phased1/: no second update), the single / reverse "
-        "sweeps with a worker whose thread runs an asyncio loop of its own (ownloop/, ownloop-reverse/), random "
+        "sweeps with a worker whose thread runs an asyncio loop of its own (ownloop/, ownloop-reverse/), a worker "
+        "that calls override_properties (override/, override-then-set/: oracle only), random "
         "programs under "
         "random schedules (random). A case is non-trivial "
         "if the shared-variable accesses of the two threads actually interleave (neither thread's accesses all "
@@ -1461,6 +1632,9 @@ def replay(ctx: Ctx, r):
     _print_run(r, res)
     for sig, desc in res["verdicts"]:
         print("FAILS:", sig, desc)
+    if res.get("stale_meta"):
+        print("OBSERVATION (not judged by C20, which speaks of the value): after everything completed, GET /accessories "
+              "serves a representation whose properties differ from the characteristic's properties:", res["stale_meta"])
     print("verdict:", "property violated on this input" if res["verdicts"] else "holds on this input")
     return 1 if res["verdicts"] else 0
 
